@@ -974,6 +974,8 @@ def c09():
     capfail = "{% capture c %}row {{ x }}: {{ missing }};{% endcapture %}[{{ c }}]"
     capok = "{% capture g %}Hello {{ x }}{% endcapture %}[{{ g }}]{% cycle 'u', 'v' %}"
     out.append({"kind": "render_history", "templates": [ifch, capfail, capok], "datas": [{"x": 1, "xs": [1, 1, 2, 2, 1]}, {"x": "s", "xs": [2, 1, 2]}], "length": 3})
+    # a render_to whose sink fails must leave nothing behind either: histories that interleave failing-sink calls
+    out.append({"kind": "render_history", "templates": ["{% for i in (1..3) %}{{ i }}:{{ x }} {% endfor %}{% increment c %}", capok], "datas": [{"x": "hello"}, {"x": "bye"}], "length": 3, "sink_faults": True})
     # partial names chosen through variables, partials whose names differ only by the `.liquid` suffix, under every compilation policy
     twins = {"row": "ROW", "row.liquid": "ROW-LIQUID", "home": "HOME", "about": "ABOUT{% increment n %}"}
     dyn = ["{% render page %}|{% include page %}", "{% include 'row' %}", "{% include 'row.liquid' %}", "{% render 'row' %}{% render 'row.liquid' %}"]
